@@ -10,6 +10,7 @@ import (
 
 func init() {
 	natives["go.sia.tech/core/rhp/v2.MetaRoot"] = natMetaRoot
+	natives["go.sia.tech/core/rhp/v4.CachedSectorSubtrees"] = natCachedSectorSubtrees
 	natives["go.sia.tech/core/blake2b.SumNodes"] = natSumNodes
 	natives["go.sia.tech/core/blake2b.SumLeaves"] = natSumLeaves
 	natives["go.sia.tech/core/types.NewPrivateKeyFromSeed"] = natNewPrivateKeyFromSeed
@@ -188,4 +189,12 @@ func natForgedSig(fr *frame, fn *ssa.Function, args []value) value {
 	}
 	i.path.forged[i.bytesTerm([]value(out))] = true
 	return out
+}
+
+// CachedSectorSubtrees: idealised as one injective hash of the first 256 bytes
+// of the sector (harness sectors are at most that long; the rest is zero).
+func natCachedSectorSubtrees(fr *frame, fn *ssa.Function, args []value) value {
+	sector := (*args[0].(*value)).(array)
+	h := fr.i.hashBytes("sector-subtrees", []value(sector[:256]), false)
+	return []value{h}
 }
